@@ -76,10 +76,14 @@ def make_script(evs, seg):
         times = [1.0] * len(evs)
         end = 51.0
     elif seg == "cut-in-payload":
-        # segment 1 ends inside the first frame's payload; segment 2 carries the rest of it and every following frame
+        # a large first message is put in front; segment 1 ends one byte before the end of its payload, segment 2 carries
+        # that last byte and every following (small) frame: a reader that asks the transport for more than the frame still
+        # needs takes the followers with it, and a select()-driven loop is then never woken for them
+        big = "L" * 400
+        evs.insert(0, dict(kind="text", frames=[R.encode(R.TEXT, big.encode())], msg=(R.TEXT, big)))
         data = b"".join(fr for ev in evs for fr in ev["frames"])
         first = evs[0]["frames"][0]
-        cut = max(3, len(first) - max(1, (len(first) - 2) // 2))
+        cut = len(first) - 1
         script.append((1.0, "segments", [data[:cut], data[cut:]]))
         times = [1.0] * len(evs)
         end = 51.0
